@@ -55,6 +55,7 @@ func (c19) Gen(r *rand.Rand, tier string, run int) *core.Case {
 		c.Params["break"] = r.IntN(3)       // 0 no; 1 reset, then quiescence; 2 reset racing with the requests
 		c.Params["break_addr"] = r.IntN(servers + 1)
 		c.Params["late"] = r.IntN(2)
+		c.Params["late_extra"] = r.IntN(3)
 		if c.Params["break"] == 0 {
 			c.Params["late"] = 1
 		}
@@ -181,15 +182,24 @@ func (c19) Run(c *core.Case, env *core.Env) {
 	phase("proxy")
 	env.S.Quiesce()
 	if c.P("late", 0) == 1 {
-		zzsim.SetNode("server0")
-		_, err := dsrv.NewService("ProbeLate", probe.ProbeObject(&ProbeImpl{Env: env, Obj: 77}))
-		zzsim.SetNode("harness")
-		if err != nil {
-			env.Violate("harness/setup", "late service: %v", err)
-			return
+		// services registered one right after the other: the session hears
+		// of each of them while it may still be digesting the previous news;
+		// the one its requests will ask for comes last
+		for k := 0; k <= c.P("late_extra", 0); k++ {
+			name := "ProbeLate"
+			if k < c.P("late_extra", 0) {
+				name = fmt.Sprintf("Other%d", k)
+			}
+			zzsim.SetNode("server0")
+			_, err := dsrv.NewService(name, probe.ProbeObject(&ProbeImpl{Env: env, Obj: 77}))
+			zzsim.SetNode("harness")
+			if err != nil {
+				env.Violate("harness/setup", "late service: %v", err)
+				return
+			}
 		}
 		st.lateOK = true
-		env.S.Quiesce() // the session has heard of it
+		env.S.Quiesce() // the session has heard of them
 		env.Probe("late-service")
 	}
 	if mode := c.P("break", 0); mode > 0 {
